@@ -372,12 +372,14 @@ func runInner(c Case) (res vt.Result, fail *vt.Fail) {
 		fh := faultHit
 		fo := faultOn
 		mu.Unlock()
+		realNil := map[int]bool{}
 		for ref, es := range perRef {
 			anyNil := false
 			for _, e := range es {
 				var re *remote.ReferrersError
 				if e == nil {
 					anyNil = true
+					realNil[ref] = true
 					continue
 				}
 				if errors.As(e, &re) && re.IsReferrersIndexDelete() {
@@ -397,7 +399,11 @@ func runInner(c Case) (res vt.Result, fail *vt.Fail) {
 					return res, vt.Failf("C14/operation-failed", "phase %d: %s of referrer %d failed without any injected fault: %v", pi, kind[ref], ref, e)
 				}
 			}
-			if anyNil {
+			// a subject's index counts as rewritten by this Repository once an update
+			// went through. A Delete that ends with an index-delete error is not
+			// counted: when it empties the list, deleting the old index IS the update,
+			// and the old index (duplicates and all) is still what the tag points to
+			if anyNil && !(kind[ref] == "delete" && limbo[ref] && !realNil[ref]) {
 				touched[c.Refs[ref].Subject] = true
 			}
 			if kind[ref] == "push" {
@@ -515,6 +521,12 @@ func runInner(c Case) (res vt.Result, fail *vt.Fail) {
 				k := entryKey(entry(i))
 				if live[i] && !gotSet[k] && !pushFailed[i] && !limbo[i] {
 					return res, vt.Failf("C14/silent-loss", "phase %d: referrer %d is live, its push returned nil, but it is not listed for subject %d (fault %+v)", pi, i, s, c.Fault)
+				}
+				if !live[i] && gotSet[k] && deleteFailed[i] && !limbo[i] && (c.Fault.On == "index-get" || c.Fault.On == "index-put") {
+					// a Delete that failed because the index could not be fetched or
+					// written must not have removed the manifest: it would stay listed
+					// for good (a retry of the Delete ends with not-found)
+					return res, vt.Failf("C14/failed-delete-removed-manifest", "phase %d: Delete of referrer %d returned an error (fault %+v), yet its manifest is gone from the registry while subject %d still lists it", pi, i, c.Fault, s)
 				}
 				if !live[i] && gotSet[k] && !deleteFailed[i] && !(fh && c.Fault.On != "index-get") {
 					return res, vt.Failf("C14/deleted-still-listed", "phase %d: referrer %d was deleted (nil) but is still listed for subject %d", pi, i, s)
